@@ -26,8 +26,8 @@ schema=[
  ('reader-error:array:key[kf=cus,id62-pattern,lr]', spec('fa','key',arr='1',kf='cus',pat=hx(ID62),lr=lr(f=1))),
 ]
 schema+=[
- ('reader-error:array:any', spec('fa','any',arr='1')),
- ('reader-error:map:any', spec('fa','any',arr='m')),
+ ('regression a76cc98: arrays / maps of any are reflected', spec('fa','any',arr='1')),
+ ('regression a76cc98', spec('fa','any',arr='m')),
  ('schema-diff:map:key:kind:key->str[kf=]', spec('fa','key',arr='m')),
  ('schema-diff:map:key:kind:key->str[kf=inf]', spec('fa','key',arr='m',kf='inf')),
  ('schema-diff:map:key:kind:key->str[kf=cus]', spec('fa','key',arr='m',kf='cus',pat=hx('^abc$'))),
@@ -55,8 +55,18 @@ rules=[
  ('fixed b6c593a enum default filter', spec('fa','enum',eopts=hx('ALPHA'),lr=lr(f=1,df=('nope',)))+' | ~ 0 1 2'),
  ('fixed d9448b1 map value rules', spec('fa','str',arr='m',ar='1',amin='1',amax='2',r='1',minl='2')+' | ~ [] [61] [6162] [6162,616263] [6162,616263,61626364] [6162,61]'),
 ]
+def root(kind='obj',desc='~',ent='~',part='~',anym='~',barent='~'):
+    return f"root={kind} desc={desc} ent={ent} part={part} anym={anym} barent={barent}"
+# (signature, root segment, specs)
+roots=[
+ ('schema-diff:root:entity:invented[keys-field]', root(barent=hx('Widget')), [spec('keys','obj')]),
+ ('regression: entity object with any-membership', root(desc=hx('the foo'),ent=hx('Thing'),part='2',anym=hx('alpha')+','+hx('second')), [spec('fa','str',req='1'), spec('fb','bool',arr='m',ar='1',amin='1')]),
+ ('regression: entity without part, field keys of an entity object', root(ent=hx('Thing'),barent=hx('Widget')), [spec('keys','obj')]),
+ ('regression: oneof root', root(kind='oneof',desc=hx('a oneof')), [spec('fa','obj',desc=hx('an option')), spec('fb','int',fmt='i32',r='1',min='3'), spec('fc','enum',eopts=hx('ALPHA'))]),
+]
 which=sys.argv[1]
 if which=='schema':
     for sig,s in schema: print('schema ~ ;; '+s)
+    for sig,r,specs in roots: print('schema '+r+' ;; '+' ;; '.join(specs))
 else:
     for sig,s in rules: print('rules '+s)
